@@ -34,14 +34,16 @@ CONSTANTS
   MaxAttempts,    \* queue max_attempts (and RunTask retry budget)
   AnyOrder,       \* TRUE: any visible message may be polled; FALSE: smallest ord first
   EnvBetween,     \* TRUE: environment steps may fall between the commits of a handler
-  FixRetry        \* TRUE: model the repaired transient-retry counter (see known finding C14)
+  FixRetry,       \* TRUE: model the repaired transient-retry counter (see known finding C14)
+  TrustNegative   \* dedup_trust_negative_cache: a negative answer of an authoritative filter skips the durable check
 
 VARIABLES
   wf, st, tk,     \* durable: workflow / stage / task rows
   q, dlq, done,   \* durable: queue rows, dead letters, processed-message ids
   claims,         \* durable: claim table
   nextId, pushed, \* durable: AUTOINCREMENT counter, every message key ever inserted
-  wk,             \* volatile: the worker (program counter, message in hand, task outcome)
+  wk,             \* volatile: the worker (program counter, message in hand, task outcome) and the in-memory
+                  \*           duplicate filter (seen = ids it was told about, auth = negatives may be trusted)
   ledger,         \* ghost: per task the sequence of executions (what the task saw)
   gh,             \* ghost record: starts / rearms per stage, tasks with a recorded result, cancel bookkeeping
   cnt,            \* ghost: bounded-exploration counters
@@ -197,6 +199,7 @@ Cur      == CHOOSE m \in q : m.id = wk.mid
 EnvOK    == Idle \/ EnvBetween
 Visible(m) == ~m.lock /\ ~m.delayed /\ m.att < MaxAttempts
 SetWk(pc)  == wk' = [wk EXCEPT !.pc = pc]
+IdleWk     == [wk EXCEPT !.pc = "idle", !.mid = NoMsg, !.out = ""]
 Label(n)   == lbl' = [name |-> n, mid |-> wk.mid, c |-> TRUE]    \* a step that is a database commit
 LabelN(n)  == lbl' = [name |-> n, mid |-> wk.mid, c |-> FALSE]   \* a step without commit
 
@@ -212,7 +215,7 @@ Init ==
   /\ tk = [t \in {x \in AllTasks : StageOf(x) \in TopLevel} |-> TaskRow0]
   /\ LET r == PushSeq({}, {}, 1, <<StartWorkflowM>>) IN q = r.q /\ pushed = r.pushed /\ nextId = r.nid
   /\ dlq = {} /\ done = {} /\ claims = <<>>
-  /\ wk = [pc |-> "idle", mid |-> NoMsg, out |-> ""]
+  /\ wk = [pc |-> "idle", mid |-> NoMsg, out |-> "", seen |-> {}, auth |-> TRUE]   \* hydrated from an empty store
   /\ ledger = [t \in AllTasks |-> <<>>]
   /\ gh = [starts |-> [s \in Stages |-> 0],      \* NOT_STARTED -> RUNNING claims per stage
            rearms |-> [s \in Stages |-> 0],      \* times a jump re-armed the stage
@@ -237,11 +240,17 @@ Poll(m) ==
   /\ Idle /\ m \in q /\ Visible(m) /\ ~cnt.needSweep
   /\ (AnyOrder \/ m = MinVisible)
   /\ q' = (q \ {m}) \cup {[m EXCEPT !.lock = TRUE, !.att = @ + 1]}
-  /\ wk' = [pc |-> "polled", mid |-> m.id, out |-> ""]
+  /\ wk' = [wk EXCEPT !.pc = "polled", !.mid = m.id, !.out = ""]
   /\ lbl' = [name |-> "Poll", mid |-> m.id, c |-> TRUE]
   /\ UNCHANGED <<wf, st, tk, dlq, done, claims, nextId, pushed, ledger, gh, cnt>>
 
 (* durable duplicate check (queue/processor/mixins.py:_handle_message) *)
+BloomNegativeTrusted == TrustNegative /\ wk.auth /\ wk.mid \notin wk.seen
+DedupTrusted ==   \* opt-in fast path: an authoritative filter says "definitely new", no durable read
+  /\ wk.pc = "polled" /\ BloomNegativeTrusted
+  /\ SetWk("handle") /\ LabelN("DedupTrusted")
+  /\ UNCHANGED <<durable, ledger, gh, cnt>>
+
 Dedup ==
   /\ wk.pc = "polled"
   /\ SetWk(IF wk.mid \in done THEN "ack" ELSE "handle")
@@ -256,18 +265,18 @@ HRet ==    \* the handler returned; only legal after its last commit or on a no-
 PostMark ==
   /\ wk.pc = "postmark"
   /\ done' = done \cup {wk.mid}
-  /\ SetWk("ack") /\ Label("PostMark")
+  /\ wk' = [wk EXCEPT !.pc = "ack", !.seen = @ \cup {wk.mid}] /\ Label("PostMark")
   /\ UNCHANGED <<wf, st, tk, q, dlq, claims, nextId, pushed, ledger, gh, cnt>>
 
 Ack ==
   /\ wk.pc = "ack"
   /\ q' = q \ {Cur}
-  /\ wk' = [pc |-> "idle", mid |-> NoMsg, out |-> ""] /\ Label("Ack")
+  /\ wk' = IdleWk /\ Label("Ack")
   /\ UNCHANGED <<wf, st, tk, dlq, done, claims, nextId, pushed, ledger, gh, cnt>>
 
 Withhold ==   \* the ack is lost: the message stays locked and is redelivered after LockExpire
   /\ wk.pc = "ack" /\ cnt.withheld < MaxWithhold
-  /\ wk' = [pc |-> "idle", mid |-> NoMsg, out |-> ""] /\ LabelN("Withhold")
+  /\ wk' = IdleWk /\ LabelN("Withhold")
   /\ cnt' = [cnt EXCEPT !.withheld = @ + 1]
   /\ UNCHANGED <<durable, ledger, gh>>
 
@@ -279,7 +288,7 @@ HRaise ==    \* the handler raised (see the handlers for which states do)
 Reschedule ==  \* processor error path: visible again after retry_delay, lock released
   /\ wk.pc = "failed"
   /\ q' = (q \ {Cur}) \cup {[Cur EXCEPT !.lock = FALSE, !.delayed = TRUE]}
-  /\ wk' = [pc |-> "idle", mid |-> NoMsg, out |-> ""] /\ Label("Reschedule")
+  /\ wk' = IdleWk /\ Label("Reschedule")
   /\ UNCHANGED <<wf, st, tk, dlq, done, claims, nextId, pushed, ledger, gh, cnt>>
 
 -----------------------------------------------------------------------------
@@ -670,12 +679,18 @@ TimePasses(m) ==
 
 CrashWhen(allowIdle) ==   \* process kill: volatile state is lost, locks stay; a fresh worker recovers first
   /\ cnt.crashes < MaxCrashes /\ (allowIdle \/ ~Idle)
-  /\ wk' = [pc |-> "idle", mid |-> NoMsg, out |-> ""]
+  /\ wk' = [pc |-> "idle", mid |-> NoMsg, out |-> "", seen |-> done, auth |-> TRUE]   \* fresh filter, hydrated at start
   /\ cnt' = [cnt EXCEPT !.crashes = @ + 1, !.needSweep = TRUE]
   /\ lbl' = [name |-> "Crash", mid |-> wk.mid, c |-> FALSE]
   /\ UNCHANGED <<durable, ledger, gh>>
 
 Crash == CrashWhen(FALSE)
+
+BloomReset ==   \* forced rotation of the in-memory filter without re-hydration: authority is revoked
+  /\ Idle
+  /\ wk' = [wk EXCEPT !.seen = {}, !.auth = FALSE]
+  /\ lbl' = [name |-> "BloomReset", mid |-> NoMsg, c |-> FALSE]
+  /\ UNCHANGED <<durable, ledger, gh, cnt>>
 
 (* recovery.py:_recover_workflow *)
 PendingFor(t) == \E m \in q : m.t = t
@@ -741,7 +756,7 @@ Environment ==
   \/ Crash \/ Sweep \/ DLQSweep \/ SendCancel
   \/ \E s \in Stages : EarlyStart(s)
 
-Processor == (\E m \in q : Poll(m)) \/ Dedup \/ HRet \/ PostMark \/ Ack \/ Withhold \/ HRaise \/ Reschedule
+Processor == (\E m \in q : Poll(m)) \/ Dedup \/ DedupTrusted \/ HRet \/ PostMark \/ Ack \/ Withhold \/ HRaise \/ Reschedule
 
 Next == Processor \/ Handlers \/ Environment
 Spec == Init /\ [][Next]_vars
